@@ -232,7 +232,12 @@ _VALUES = ["v", "", "a$$b", "$$", "<x>", "%define a b", "#c", "(p)", "a  b",
            # characters other line splitters treat as line ends; only "\n"
            # ends a line of configuration text
            "first\x0csecond", "a\u2028b", "a\x85b c", "x\ry", "p\x0bq",
-           "a\x1cb\x1dc\x1ed", "u\u2029v"]
+           "a\x1cb\x1dc\x1ed", "u\u2029v",
+           # quotes, backslashes and other characters that mean something
+           # in other configuration languages, not here
+           '""x""', '""""', '"a"', "'b'", '"', '" x "', '""a" or "b""',
+           "C:\\data\\", "\\", "a\\", "\\n", "x;y", "a,b,", "k=v", "=",
+           "a # b", "{a}", "[s]", "@x", "!y", "~", "`z`", "a|b", "*", "+"]
 _KEYS = ["k", "K", "key-1", "a.b", "k", "zz", "a#b", "k/", "\ufeffname",
          "\ufeff\ufeffk", "\ufeff%import", "\ufeff<x>", "k$$", "$$k"]
 _HTOK = ["a", "A", "sec", "a/", "a>", "x/y", "b//", ">", "/", "$$", "x$$y",
